@@ -133,9 +133,19 @@ pub fn lonlat_to_cell(lonlat: LonLat, resolution: i32) -> Result<u64, String> {
     #[cfg(feature = "verif")]
     VERIF_LAST_LOOKUP_BRANCH.with(|b| b.set(-1));
 
-    // As fallback, sort cells by distance and use the closest one
-    cells.sort_by(|a, b| b.1.partial_cmp(&a.1).unwrap_or(std::cmp::Ordering::Equal));
-    serialize(&cells[0].0)
+    // As fallback use the closest cell. The values collected above are scaled by the distance from the
+    // point to a vertex of the pentagon, so next to a vertex they are of the order of the cell size however
+    // close the point is and cannot be compared between cells; rank by the distance to the nearest edge
+    let mut closest = 0;
+    let mut closest_distance = f64::NEG_INFINITY;
+    for (i, (cell, _)) in cells.iter().enumerate() {
+        let distance = a5cell_edge_distance(cell, lonlat)?;
+        if distance > closest_distance {
+            closest = i;
+            closest_distance = distance;
+        }
+    }
+    serialize(&cells[closest].0)
 }
 
 /// The ij_to_s function uses the triangular lattice which only approximates the pentagon lattice
@@ -299,6 +309,14 @@ pub fn cell_to_boundary(
     // throughout the whole codebase
     normalized_boundary.reverse();
     Ok(normalized_boundary)
+}
+
+/// Signed distance (in face units, positive inside) from a point to the nearest edge of an A5 cell
+fn a5cell_edge_distance(cell: &A5Cell, point: LonLat) -> Result<f64, String> {
+    let spherical = from_lon_lat(point);
+    let dodecahedron = DodecahedronProjection::get_thread_local();
+    let projected_point = dodecahedron.forward(spherical, cell.origin_id)?;
+    Ok(get_pentagon(cell)?.edge_distance(projected_point))
 }
 
 /// Test if an A5 cell contains a given point
